@@ -7,6 +7,9 @@
 (*   "mc"      any epoch change / any connection at every step (exhaustive check)    *)
 (*   "tamper"  conn (fresh) ; conn offering the saved session with every tamper kind *)
 (*   "config"  conn (fresh) ; one configuration change ; conn offering the session   *)
+(*   "policy"  conn (fresh, SNI a|b) ; change of the global client-auth policy or of  *)
+(*             the per-SNI rule (reload) or none ; conn offering the session on SNI   *)
+(*             a|b (other VIP/SNI sharing key and cache)                              *)
 (*   "file"    steps are read from histories.ndjson (seeded sampling, TicketGen)     *)
 EXTENDS Ticket
 
@@ -24,27 +27,40 @@ Thorough == Tier = "thorough"
 Keys == {1, 2}
 CacheGens == {0, 1, 2}
 SvMaxes == {0, 11} \cup (IF Thorough THEN {10} ELSE {})
-SvSuites == {<<"EG", "EC">>, <<"EC">>, <<"EG">>, <<"RC", "EC">>}
+SvSuites == {<<"EG", "EC">>, <<"EC">>, <<"EG">>, <<"RC", "EC">>, <<"CH", "EG", "EC">>}
 Auths == {"none", "request", "require"}
-Epochs == [key : Keys, tickets : BOOLEAN, cache : CacheGens, max : SvMaxes, suites : SvSuites, auth : Auths]
+\* per-SNI rules (Config.ServerRule): none, or a rule for SNI "a" raising exactly one setting / all
+TRule(g, ca, ch) == [on |-> TRUE, sni |-> "a", grade |-> g, np |-> <<>>, clientauth |-> ca, chacha |-> ch]
+Rules == {NoRule, TRule("C", TRUE, FALSE), TRule("C", FALSE, TRUE), TRule("A+", FALSE, FALSE)} \cup
+         (IF Thorough THEN {TRule("C", FALSE, FALSE), TRule("A+", TRUE, TRUE)} ELSE {})
+Epochs == [key : Keys, tickets : BOOLEAN, cache : CacheGens, max : SvMaxes, suites : SvSuites, auth : Auths, rule : Rules]
 
 ClMaxes == {11, 12} \cup (IF Thorough THEN {10} ELSE {})
-GoSuites == {<<"EG", "EC", "RC">>, <<"EC", "RC">>, <<"EG">>, <<"RC">>}      \* in crypto/tls's own order
+GoSuites == {<<"EG", "EC", "RC">>, <<"EC", "RC">>, <<"EG">>, <<"RC">>, <<"EG", "CH", "EC">>}  \* (server preference decides)
 RawSuites == GoSuites \cup {<<"RC", "EC", "EG">>}
-Clients == [kind : {"go"}, max : ClMaxes, suites : GoSuites, cert : BOOLEAN, noticket : {FALSE}] \cup
-           [kind : {"raw"}, max : ClMaxes, suites : RawSuites, cert : BOOLEAN, noticket : BOOLEAN]
+Snis == {"a", "b"}
+Clients == [kind : {"go"}, max : ClMaxes, suites : GoSuites, cert : BOOLEAN, noticket : {FALSE}, sni : Snis] \cup
+           [kind : {"raw"}, max : ClMaxes, suites : RawSuites, cert : BOOLEAN, noticket : BOOLEAN, sni : Snis]
 
-Epoch0 == [key |-> 1, tickets |-> TRUE, cache |-> 1, max |-> 0, suites |-> <<"EG", "EC">>, auth |-> "none"]
+Epoch0 == [key |-> 1, tickets |-> TRUE, cache |-> 1, max |-> 0, suites |-> <<"EG", "EC">>, auth |-> "none", rule |-> NoRule]
 \* epochs that differ from x in exactly one dimension
-OneChange(x) == {y \in Epochs : Cardinality({d \in {"key", "tickets", "cache", "max", "suites", "auth"} : x[d] # y[d]}) = 1}
+OneChange(x) == {y \in Epochs : Cardinality({d \in {"key", "tickets", "cache", "max", "suites", "auth", "rule"} : x[d] # y[d]}) = 1}
 
-StdGo == [kind |-> "go", max |-> 12, suites |-> <<"EG", "EC", "RC">>, cert |-> TRUE, noticket |-> FALSE]
+StdGo == [kind |-> "go", max |-> 12, suites |-> <<"EG", "EC", "RC">>, cert |-> TRUE, noticket |-> FALSE, sni |-> "a"]
+AuthRule == TRule("C", TRUE, FALSE)
+\* the two ways of requiring a client certificate: globally, or by the rule of the connection's SNI
+RequireGlobal == [Epoch0 EXCEPT !.auth = "require"]
+RequireByRule == [Epoch0 EXCEPT !.rule = AuthRule]
+PolicyDims(x) == {y \in Epochs : /\ \A d \in {"key", "tickets", "cache", "max", "suites"} : x[d] = y[d]
+                                  /\ (x.auth = y.auth \/ x.rule = y.rule)}
 StdRawT == [StdGo EXCEPT !.kind = "raw"]
 StdRawS == [StdGo EXCEPT !.kind = "raw", !.noticket = TRUE]
 
 \* initial epochs per preset
-Init0 == CASE Preset = "mc" -> {Epoch0, [Epoch0 EXCEPT !.auth = "require"]}
-           [] Preset = "tamper" -> {[Epoch0 EXCEPT !.auth = a, !.max = m] : a \in {"none", "require"}, m \in {0, 11}}
+Init0 == CASE Preset = "mc" -> {Epoch0, RequireGlobal, RequireByRule}
+           [] Preset = "tamper" -> {[x EXCEPT !.max = m] : x \in {Epoch0, RequireGlobal, RequireByRule}, m \in {0, 11}}
+           [] Preset = "policy" -> {[Epoch0 EXCEPT !.auth = a, !.rule = r, !.suites = <<"CH", "EG", "EC">>] :
+                                       a \in (IF Thorough THEN Auths ELSE {"none", "require"}), r \in {NoRule, AuthRule, TRule("C", FALSE, TRUE), TRule("A+", FALSE, FALSE)}}
            [] Preset = "config" -> {[Epoch0 EXCEPT !.auth = a, !.max = m] : a \in Auths, m \in {0, 11}}
            [] OTHER -> {Epoch0}
 
@@ -77,6 +93,13 @@ Inputs ==
         ELSE IF n = 1 THEN {EpochIn(x) : x \in OneChange(e) \cup {e}}
         ELSE IF n = 2 THEN {ConnIn(c, "saved", "none") :
                               c \in {x \in Clients : x.kind = last.kind /\ x.noticket = last.noticket}}
+        ELSE {}
+    [] Preset = "policy" ->
+        IF n = 0 THEN {ConnIn([c EXCEPT !.cert = ct, !.sni = sn, !.suites = su], "none", "none") :
+                          c \in {StdGo, StdRawT, StdRawS}, ct \in BOOLEAN, sn \in Snis,
+                          su \in {<<"EG", "EC", "RC">>, <<"EG", "CH", "EC">>}}
+        ELSE IF n = 1 THEN {EpochIn(x) : x \in PolicyDims(e)}
+        ELSE IF n = 2 THEN {ConnIn([last.cl EXCEPT !.sni = sn], "saved", "none") : sn \in Snis}
         ELSE {}
     [] OTHER -> {}
 
